@@ -40,6 +40,7 @@ def strategy(tier):
 
 
 MASKED = "member-type-change-masked-by-harmless-union-change"
+MASKED2 = "uncategorized-change-masked-by-harmless-category"
 _HARMLESS_ONLY = {"HARMLESS_UNION_CHANGE_CATEGORY", "REDUNDANT_CATEGORY"}
 _NODE = re.compile(r"^( *)(\w+)\[(.*)\]$")
 
@@ -125,6 +126,14 @@ def run_case(case, cx):
     if not r.rc & R.STATUS_CHANGE:
         if masked_by_harmless_union(cx, b1, b2, info):
             cx.violation(MASKED, det)
+            return
+        # the same defect with another harmless category doing the masking (the union that carries
+        # HARMLESS_UNION_CHANGE_CATEGORY may also *contain* the struct instead of being a member of it; a top-level cv
+        # change of a parameter, an access change ... mask in the same way): the tool's own diff tree holds harmless
+        # categories only -- not a single harmful one -- and --harmless does report the change
+        if info["kind"] in ("member_type", "reorder_members", "enumerator_value") and \
+                pairs.only_harmless_categories_in_tree(cx, b1, b2):
+            cx.violation(MASKED2, det)
             return
         cx.violation("not-reported:" + info["kind"], det)
         return
